@@ -15,3 +15,6 @@ open Neutrino.BM
 #print axioms Neutrino.HL.reset_inv
 #print axioms C01_headerlist_refines
 #print axioms Neutrino.HL.push_preserves_RInv
+#print axioms C01_ctx_resolves_own_branch
+#print axioms C01_ctx_connect_loop
+#print axioms ctx_reorg_small_window_counterexample
